@@ -440,7 +440,7 @@ type TruncFunction struct {
 // NewTruncFunction 创建新的 trunc 函数
 func NewTruncFunction() *TruncFunction {
 	return &TruncFunction{
-		BaseFunction: NewBaseFunction("trunc", TypeConversion, "转换函数", "截断小数位数", 2, 2),
+		BaseFunction: NewBaseFunction("trunc", TypeConversion, "转换函数", "截断小数位数", 1, 2),
 	}
 }
 
@@ -461,10 +461,13 @@ func (f *TruncFunction) Execute(ctx *FunctionContext, args []any) (any, error) {
 		return nil, err
 	}
 
-	// 转换第二个参数为整数（精度）
-	precision, err := cast.ToIntE(args[1])
-	if err != nil {
-		return nil, err
+	// 转换第二个参数为整数（精度）；precision is optional and defaults to 0
+	precision := 0
+	if len(args) > 1 {
+		precision, err = cast.ToIntE(args[1])
+		if err != nil {
+			return nil, err
+		}
 	}
 
 	// 精度不能为负数
